@@ -16,7 +16,7 @@ PQCls == PQ \cup PCls
 \* non-ASCII text in the shared prefix, as a literal and inside a group (character count # byte count)
 PNa == { <<"/", "~e~", "/", "a">>, <<"/", "~e~", "/", "b">>, <<"/", "~e~", "/", "LOW">>, <<"/", "ELW", "/", "a">>, <<"/", "ELW", "/", "b">>, <<"/", "a">>, <<"/", "~u~", "/", "a">> }
 \* an expression whose compiled program takes several MiB (lazy and warmed evaluation must build it with the same limits)
-PBig == { <<"/", "a", "/", "BIGW">>, <<"/", "a", "/", "b">>, <<"/", "BIGW">>, <<"/", "a", "/", "BAD">> }
+PBig == { <<"/", "a", "/", "BIGW">>, <<"/", "a", "/", "b">>, <<"/", "BIGW">>, <<"/", "a", "/", "BAD">>, <<"/", "a", "/", "CLS">> }
 ProbesBig == { <<>>, <<"/", "a", "/", "a", "b">>, <<"/", "a", "/", "b">>, <<"/", "a", "/", "~e~">>, <<"/", "a", "/", "a", "/">>, <<"/", "a", "b">> }
 ProbesNa == { <<>>, <<"/", "~e~", "/", "a">>, <<"/", "~e~", "/", "b">>, <<"/", "~e~", "/", "a", "b">>, <<"/", "~e~", "/">>, <<"/", "~e~", "a", "/", "a">>,
               <<"/", "~e~", "b", "a", "/", "b">>, <<"/", "a">>, <<"/", "~e~", "/", "A">>, <<"/", "e", "/", "a">>, <<"/", "~e~", "a", "/", "a", "/">>, <<"/", "~u~", "/", "a">>, <<"/", "~u~", "/", "b">> }
